@@ -30,6 +30,8 @@ def mac_grid(cfg):
         if len(b) == 4:
             base.append(bytes([1, 0, 0x5e, b[1] & 0x7f, b[2], b[3]]))
             base.append(bytes([1, 0, 0x5e, b[1] | 0x80, b[2], b[3]]))
+            base.append(bytes([1, 0, 0x5e, b[1] & 0x3f, b[2], b[3]]))
+            base.append(bytes([1, 0, 0x5e, b[1], b[2], b[3]]))
         else:
             base.append(b"\x33\x33\xff" + b[13:])
     out = []
@@ -43,13 +45,17 @@ def mac_grid(cfg):
 
 
 def generate(tier, rng):
-    for cfg in gens.cfgs(key=(3, 4)) + [Cfg(self_ips=["10.0.0.1"]), Cfg(self_ips=["2001:db8::1"]), Cfg(self_ips=[])]:
+    hi = [Cfg(self_ips=["10.64.1.2", "172.255.200.100", "2001:db8::ff:fe80:c0de"]),
+          Cfg(self_ips=["10.192.255.254", "9.127.128.129"]), Cfg(self_ips=["224.129.130.131", "fe80::ffff:ffff:ffff:ff01"])]
+    for cfg in gens.cfgs(key=(3, 4)) + [Cfg(self_ips=["10.0.0.1"]), Cfg(self_ips=["2001:db8::1"]), Cfg(self_ips=[])] + hi:
         # MAC grid with an ARP request, an echo and a SYN behind it
         fr = []
+        own4 = next((a for a in (cfg.self_ips or []) if len(net.ip_bytes(a)) == 4), gens.SELF4)
+        own6 = next((a for a in (cfg.self_ips or []) if len(net.ip_bytes(a)) == 16), gens.SELF6)
         for m in mac_grid(cfg):
-            fr.append(gens.arp_req(gens.SELF4, mac_dst=m))
-            fr.append(gens.echo4(gens.PEER4, gens.SELF4, mac_dst=m))
-            fr.append(net.frame_tcp(gens.PEER6, gens.SELF6, 1, 2, 3, 4, 2, mac_dst=m))
+            fr.append(gens.arp_req(own4, mac_dst=m))
+            fr.append(gens.echo4(gens.PEER4, own4, mac_dst=m))
+            fr.append(net.frame_tcp(gens.PEER6, own6, 1, 2, 3, 4, 2, mac_dst=m))
         yield Script(cfg, fr, "mac-grid")
         # addresses: member / non-member destinations, denied / allowed sources, every reply kind
         fr = []
